@@ -910,8 +910,22 @@ impl Scenario for MigScenario {
                             AdvanceStep::Broadcast { id } => {
                                 let t = state.transactions().iter().find(|t| t.id() == id).cloned().unwrap();
                                 let txid: [u8; 32] = *t.txid().as_ref();
-                                let outcome = if fault_free { 0 } else { ch.weighted("broadcast", &[70, 12, 10, 8]) };
+                                // a transaction the node already has (its first submission went through, only the record was
+                                // lost) may be answered with a rejection: the consumer reports a failure for a transaction that
+                                // is in fact on its way into a block
+                                let known = world.mempool.contains_key(&txid) || world.mined.contains_key(&txid);
+                                let outcome = if known && ch.chance("broadcast.already_known", 1, 2) {
+                                    ctx.fault("broadcast_rejected_already_known");
+                                    state.report_broadcast_failure(id, BlockHeight::from_u32(world.tip));
+                                    persist(&mut store, &state, ctx);
+                                    9
+                                } else if fault_free {
+                                    0
+                                } else {
+                                    ch.weighted("broadcast", &[70, 12, 10, 8])
+                                };
                                 match outcome {
+                                    9 => {}
                                     0 | 2 | 3 => {
                                         let include = if outcome == 3 { None } else { Some(world.tip + 1 + ch.below("mine.delay", 4) as u32) };
                                         if include.is_none() {
@@ -1303,7 +1317,7 @@ impl Scenario for MigScenario {
         vec!["broadcast_offered", "rollback_unmined", "replan_surfaced", "rebuild_surfaced", "reevaluate_surfaced", "completed_after_faults", "complete_reverted_by_rollback"]
     }
     fn fault_kinds(&self) -> Vec<&'static str> {
-        vec!["reorg", "foreign_spend", "store_error@call", "broadcast_rejected", "broadcast_lost_record", "never_mined", "wallet_sleep", "scan_lag", "clock_skew", "clock_jump", "party_restart"]
+        vec!["reorg", "foreign_spend", "store_error@call", "broadcast_rejected", "broadcast_rejected_already_known", "broadcast_lost_record", "never_mined", "wallet_sleep", "scan_lag", "clock_skew", "clock_jump", "party_restart"]
     }
     fn time_note(&self) -> &'static str {
         "simulated time = blocks mined in the discrete-event world (the block height is the clock)"
